@@ -650,6 +650,67 @@ fn eval_c12(x: &[i128]) -> Result<(), Mismatch> {
     }
 }
 
+
+/// C12 (last sentence) through the public API with a leap table, explicit transitions and a trailing DST rule:
+/// localtime followed by the search recovers the instant, around the table/rule junction
+fn gen_c12_junction(rng: &mut Rng, n: usize, emit: &mut dyn FnMut(Vec<i128>) -> bool) {
+    for round in 0..(n / 40 + 6) {
+        let y = rng.pick(&[1973i128, 1990, 2000, 2016]);
+        let leaps: Vec<(i128, i128)> = match round % 3 {
+            0 => vec![(78796800, 1), (94694401, 2)],
+            1 => vec![(78796800, 1), (94694401, 2), (126230402, 3)],
+            _ => vec![(1000, 1)],
+        };
+        for k in -6i128..=8 {
+            for which in 0..2i128 {
+                let mut v = vec![y, which, k, leaps.len() as i128];
+                for l in &leaps {
+                    v.extend([l.0, l.1]);
+                }
+                if !emit(v) {
+                    return;
+                }
+            }
+        }
+    }
+}
+
+fn eval_c12_junction(x: &[i128]) -> Result<(), Mismatch> {
+    let (y, which, k) = (x[0], x[1], x[2]);
+    let nl = x[3] as usize;
+    let leaps: Vec<(i128, i128)> = (0..nl).map(|i| (x[4 + 2 * i], x[5 + 2 * i])).collect();
+    let a = o::Alt { std_off: 0, dst_off: 3600, start: o::Day::M(3, 5, 0), start_time: 3600, end: o::Day::M(10, 5, 0), end_time: 7200 };
+    let (s, e) = (a.s(y), a.e(y));
+    // explicit transitions at the counts of this year's start and end instants; the rule takes over afterwards
+    let b = Built {
+        leaps: leaps.iter().map(|l| LeapSecond::new(l.0 as i64, l.1 as i32)).collect(),
+        trans: vec![Transition::new(o::f(&leaps, s) as i64, 1), Transition::new(o::f(&leaps, e) as i64, 0)],
+        types: vec![LocalTimeType::new(0, false, Some(b"STD")).unwrap(), LocalTimeType::new(3600, true, Some(b"DST")).unwrap()],
+        rule: Some(TransitionRule::Alternate(real_alt(&a).unwrap().map_err(|e| ("rule accepted".to_string(), format!("{e:?}")))?)),
+    };
+    let tz = TimeZoneRef::new(&b.trans, &b.types, &b.leaps, &b.rule).map_err(|e| ("zone accepted".to_string(), format!("Err({e:?})")))?;
+    let u = if which == 0 { s } else { e } + k;
+    let want_dst = a.in_dst(u);
+    let dt = DateTime::from_timespec(u as i64, 0, tz).map_err(|e| ("lookup Ok".to_string(), format!("Err({e:?})")))?;
+    if dt.local_time_type().is_dst() != want_dst {
+        return Err((format!("lookup({u}) is_dst={want_dst}"), format!("is_dst={}", dt.local_time_type().is_dst())));
+    }
+    let list = DateTime::find(dt.year(), dt.month(), dt.month_day(), dt.hour(), dt.minute(), dt.second(), 0, tz).map_err(|e| ("search Ok".to_string(), format!("Err({e:?})")))?;
+    let v = list.into_inner();
+    let normals: Vec<(i128, bool)> = v.iter().filter_map(|k| match k { FoundDateTimeKind::Normal(d) => Some((d.unix_time() as i128, d.local_time_type().is_dst())), _ => None }).collect();
+    if !normals.contains(&(u, want_dst)) {
+        return Err((format!("search for the local time of {u} returns {u} (is_dst={want_dst})"), format!("{normals:?}")));
+    }
+    // and every returned instant really shows that local time
+    for (t, _) in &normals {
+        let back = DateTime::from_timespec(*t as i64, 0, tz).map_err(|e| ("lookup Ok".to_string(), format!("Err({e:?})")))?;
+        if dt_fields(&back) != dt_fields(&dt) {
+            return Err((format!("returned instant {t} shows {:?}", dt_fields(&dt)), format!("{:?}", dt_fields(&back))));
+        }
+    }
+    Ok(())
+}
+
 fn gen_c13(rng: &mut Rng, n: usize, emit: &mut dyn FnMut(Vec<i128>) -> bool) {
     for round in 0..(n / 2 + 200) {
         // start from a valid zone, then apply at most one defect
@@ -939,6 +1000,7 @@ const PROBES: &[Probe] = &[
     Probe { name: "C04/rule_full", property: "-", gen: gen_none, eval: eval_c04_full },
     Probe { name: "C11/new", property: "C11", gen: gen_c11, eval: eval_c11 },
     Probe { name: "C12/transition_instant", property: "C12", gen: gen_c12, eval: eval_c12 },
+    Probe { name: "C12/junction_roundtrip", property: "C12", gen: gen_c12_junction, eval: eval_c12_junction },
     Probe { name: "C13/new", property: "C13", gen: gen_c13, eval: eval_c13 },
     Probe { name: "C14/new", property: "C14", gen: gen_c14_new, eval: eval_c14_new },
     Probe { name: "C14/from_timespec_and_local", property: "C14", gen: gen_c14_ts, eval: eval_c14_ts },
